@@ -233,6 +233,7 @@ func wait(in string, enc *json.Encoder) any {
 		scripts = append(scripts, s)
 	})
 	results := make([]map[string]any, len(scripts))
+	second := make([]map[string]any, len(scripts))
 	var wg sync.WaitGroup
 	for i, s := range scripts {
 		wg.Add(1)
@@ -294,13 +295,43 @@ func wait(in string, enc *json.Encoder) any {
 				observe()
 			}
 			results[i] = map[string]any{"k": "wait", "id": i, "script": s, "events": ev}
+			// a SECOND wait on the same Health, started after everything above: it sees the readiness map as it is
+			// now, not what an earlier wait saw (its own record: the operations so far, then start / sleep / observation)
+			ev2 := []map[string]any{}
+			for _, e := range ev {
+				if e["e"] == "op" {
+					ev2 = append(ev2, e)
+				}
+			}
+			ctx2, cancel2 := context.WithCancel(context.Background())
+			ev2 = append(ev2, map[string]any{"e": "start"})
+			ch2 := h.WaitForReady(ctx2)
+			time.Sleep(long)
+			ev2 = append(ev2, map[string]any{"e": "sleep"})
+			st2, isctx2 := "pending", false
+			select {
+			case err, ok := <-ch2:
+				if !ok {
+					st2 = "closed"
+				} else {
+					st2 = "err"
+					isctx2 = errors.Is(err, context.Canceled)
+				}
+			default:
+			}
+			ev2 = append(ev2, map[string]any{"e": "obs", "state": st2, "isctx": isctx2})
+			cancel2()
+			second[i] = map[string]any{"k": "wait", "id": len(scripts) + i, "script": s, "second": true, "events": ev2}
 		}()
 	}
 	wg.Wait()
 	for _, r := range results {
 		must(enc.Encode(r))
 	}
-	return map[string]any{"scripts": len(scripts)}
+	for _, r := range second {
+		must(enc.Encode(r))
+	}
+	return map[string]any{"scripts": len(scripts), "second_waits": len(second)}
 }
 
 func readLines(path string, f func([]byte)) {
